@@ -212,6 +212,10 @@ func (in *Interp) pkgExecuted(path string) bool {
 	return stdAllowed[path]
 }
 
+// intrinsicOptOut: packages whose intrinsics are bypassed when the harness
+// lists the package under "execute" (it then runs from its own SSA).
+var intrinsicOptOut = map[string]bool{"google.golang.org/grpc/status": true}
+
 // fnAllowed: individual pure functions of packages that are otherwise not executed.
 var fnAllowed = map[string]bool{
 	"(reflect.StructTag).Get": true, "(reflect.StructTag).Lookup": true,
@@ -441,6 +445,24 @@ func (in *Interp) callFunction(fn *ssa.Function, args []Value, bind []Value) Val
 		}
 		if sf != fn {
 			return in.callFunction(sf, args, nil)
+		}
+	}
+	// a package the harness explicitly asks to execute from its own source is
+	// not replaced by engine intrinsics
+	if _, isIntr := intrinsics[name]; isIntr && intrinsicOptOut[fnPkgPath(fn)] {
+		for _, p := range in.Cfg.Execute {
+			if p == fnPkgPath(fn) {
+				if fn.Blocks == nil && fn.Pkg != nil {
+					fn.Pkg.Build()
+				}
+				return in.runFunction(fn, args, bind)
+			}
+		}
+	}
+	// an explicit harness-level havoc entry takes precedence over engine intrinsics
+	for _, p := range in.Cfg.Havoc {
+		if !strings.HasPrefix(p, "!") && matchPattern(p, name) {
+			return in.havocResult(fn, name)
 		}
 	}
 	if h, ok := intrinsics[name]; ok {
